@@ -176,6 +176,10 @@ impl Sched {
         self.tick_granted.fetch_add(1, Ordering::SeqCst);
     }
 
+    pub fn ticks_outstanding(&self) -> u32 {
+        self.tick_granted.load(Ordering::SeqCst)
+    }
+
     /// Application threads wait here (in any mode) until the controlled phase hands
     /// them the token for the first time.
     pub fn start_gate(&self, tid: usize) {
